@@ -50,7 +50,9 @@ TIES = {
     "C13": {"area": "Sni", "refine": "CodeRefineWire", "cands": "CodeCandsWire",
             "functions": ["sniproxy.decoder.read", "sniproxy.decoder.u8", "sniproxy.decoder.u64",
                           "sniproxy.decoder.bytes", "sniproxy.decoder.str", "sniproxy.decoder.end",
-                          "sniproxy.decoder.hasErr/Err/count/overread/tailError/rest (translated)"]},
+                          "sniproxy.decoder.hasErr/Err/count/overread/tailError/rest (translated)",
+                          "sniproxy.encoder.write", "sniproxy.encoder.u8", "sniproxy.encoder.u64",
+                          "sniproxy.encoder.bytes", "sniproxy.encoder.str"]},
     "C14": {"area": "Sni", "refine": "CodeRefineHello", "cands": "CodeCandsHello",
             "functions": ["sniproxy.TLSHelloConn.HelloInfo (record-length arithmetic up to recLen)"]},
     "C17": {"area": "Arch", "refine": "CodeRefine", "cands": "CodeCands",
